@@ -27,6 +27,29 @@ def main():
     if a.limit:
         programs = programs[: a.limit]
     rep, cov, _ = chk.run(programs, a.jobs, meta)
+    # name generator kernel (engine C): generated identifiers are distinct for all base names and counter values
+    import json
+    from ..common import REPLAYS
+    from ..strk import names
+    for ob in names.obligations():
+        rep.obligations += 1
+        rep.solver_seconds += ob["seconds"]
+        if ob["status"] == "holds":
+            rep.discharged += 1
+        elif ob["status"] == "cex":
+            a_, b_ = names.replay(ob["witness"])
+            if a_ == b_:
+                d = REPLAYS / "C02" / "name_generator"
+                d.mkdir(parents=True, exist_ok=True)
+                (d / "finding.json").write_text(json.dumps({"witness": ob["witness"], "names": [a_, b_]}, indent=1))
+                w = ob["witness"]
+                rep.violation(f"name generator: base name {w['b1']!r} at counter {w['d1']} and base name {w['b2']!r} at counter {w['d2']} both become the identifier {a_!r} "
+                              f"(two variables / members of one package can share a name)", d)
+            else:
+                rep.inconc(ob["name"], f"solver witness {ob['witness']} does not reproduce on the real function ({a_}, {b_})")
+        else:
+            rep.inconc(ob["name"], ob["detail"])
+    cov["name_generator_kernel"] = "cpp_vars.unique_name translated from its AST to z3 strings: injective over base names (<=6 identifier characters) x pairs of different counter values (<=4 digits)"
     cov["explanation"] = ("solver-decided: definite assignment (no read of an unassigned variable on any feasible path, all events within the bound); "
                           "front-end facts (not solver): file set, executable bit, rendered text = template static text + slots for every file, "
                           "single declaration per scope and no shadowing of generated names, member access / assignment kinds consistent with the declared "
